@@ -17,6 +17,8 @@ mod lay;
 #[cfg(kani)]
 mod io_blk;
 #[cfg(kani)]
+mod io_buf;
+#[cfg(kani)]
 mod pipes;
 #[cfg(kani)]
 mod port;
